@@ -6,9 +6,11 @@ AlphaQuick == <<
   P("addKeys", <<K("a", 1)>>, <<>>, {}, <<>>),
   P("addKeys", <<K("b", 1), K("a", 2)>>, <<>>, {}, <<>>),
   P("removeKeys", <<>>, <<>>, {"a", "z"}, <<>>),
+  P("removeKeys", <<>>, <<>>, {"a", "b"}, <<>>),
   P("addSvcs", <<K("s", 1)>>, <<>>, {}, <<>>),
   P("addSvcs", <<K("t", 1), K("s", 2)>>, <<>>, {}, <<>>),
   P("removeSvcs", <<>>, <<>>, {"q", "s"}, <<>>),
+  P("removeSvcs", <<>>, <<>>, {"s", "t"}, <<>>),
   P("addAkas", <<>>, <<>>, {}, <<"u1", "u2">>),
   P("addAkas", <<>>, <<>>, {}, <<"u2", "u3">>),
   P("removeAkas", <<>>, <<>>, {"u1", "u9"}, <<>>),
